@@ -32,6 +32,7 @@ type Env struct {
 	unfold bool // expand the outermost opaque function application (reveal)
 	hyp    bool // the clause is being assumed (quantified bodies may carry typing facts)
 	bound  map[string]bool // quantifier-bound names shadow program variables
+	free   map[string]SV   // captured variables of a closure under contract: name -> pointer to the variable's cell
 }
 
 func specFail(format string, a ...any) { panic(engineError{"spec: " + fmt.Sprintf(format, a...)}) }
@@ -493,6 +494,10 @@ func (env *Env) lookup(name string) (SV, bool) {
 	if v, ok := env.vars[name]; ok {
 		return v, true
 	}
+	if p, ok := env.free[name]; ok {
+		et := p.typ.Underlying().(*types.Pointer).Elem()
+		return SV{t: env.x.load(env.cur, p.t[0], p.t[1], et), typ: et}, true
+	}
 	return SV{}, false
 }
 
@@ -528,6 +533,16 @@ func (env *Env) call(x *SExpr) SV {
 		}
 	}
 	switch x.Name {
+	case "ref":
+		// ref(v): the cell of a captured variable (for modifies clauses of closures)
+		need(1)
+		if x.Args[0].Op != "ident" {
+			specFail("ref expects a variable name")
+		}
+		if p, ok := env.free[x.Args[0].Name]; ok {
+			return p
+		}
+		specFail("ref(%s): not a captured variable of this function", x.Args[0].Name)
 	case "old":
 		need(1)
 		if env.oldEnv == nil {
